@@ -807,6 +807,19 @@ def run_case(ctx):
             dist = MeasurementOutcomeDistribution({tuple(levels[i][int(c)] for i, c in enumerate(k)): v for k, v in d.items()})
         else:
             dist = MeasurementOutcomeDistribution(dict(d) if keyform == "str" else {tuple(int(c) for c in k): v for k, v in d.items()})
+        if ctx.index % 4 == 3:
+            # the routine is a classmethod that builds `cls(...)`: asked through a user's subclass whose constructor
+            # keeps a list of its own (validates / converts what it is given), the object handed back must still hold
+            # exactly the requested number of shots
+            class OwnListMeasurements(Measurements):
+                def __init__(self, bitstrings=None):
+                    super().__init__(None if bitstrings is None else [tuple(int(x) for x in b) for b in bitstrings])
+
+            ctx.mon.note("represent:through-a-subclass-with-its-own-list")
+            got = OwnListMeasurements.get_measurements_representing_distribution(dist, n)
+            ctx.check("represent-subclass", isinstance(got, OwnListMeasurements) and len(got.bitstrings) == n,
+                      lambda: f"{type(got).__name__} with {len(got.bitstrings)} shots for a request of {n} through a subclass")
+            return
         Measurements.get_measurements_representing_distribution(dist, n)
         return
 
